@@ -367,7 +367,7 @@ async fn load_dyn_import(
             let err = err.into_opaque(&mut context.borrow_mut())?;
             cap.reject()
                 .call(&JsValue::undefined(), &[err], &mut context.borrow_mut())
-                .expect("default `reject` function cannot throw");
+                .js_expect("default `reject` function cannot throw")?;
 
             // b. Return unused.
             return Ok(());
@@ -421,7 +421,7 @@ async fn load_dyn_import(
         let err = JsError::into_opaque(err, &mut context.borrow_mut())?;
         cap.reject()
             .call(&JsValue::undefined(), &[err], &mut context.borrow_mut())
-            .expect("default `reject` function cannot throw");
+            .js_expect("default `reject` function cannot throw")?;
         return Ok(());
     }
 
@@ -438,7 +438,7 @@ async fn load_dyn_import(
         let err = JsError::into_opaque(err, &mut context.borrow_mut())?;
         cap.reject()
             .call(&JsValue::undefined(), &[err], &mut context.borrow_mut())
-            .expect("default `reject` function cannot throw");
+            .js_expect("default `reject` function cannot throw")?;
         return Ok(());
     }
 
@@ -455,7 +455,7 @@ async fn load_dyn_import(
                 //     a. Perform ! Call(promiseCapability.[[Reject]], undefined, « reason »).
                 cap.reject()
                     .call(&JsValue::undefined(), args, context)
-                    .expect("default `reject` function cannot throw");
+                    .js_expect("default `reject` function cannot throw")?;
 
                 //     b. Return unused.
                 Ok(JsValue::undefined())
@@ -478,7 +478,7 @@ async fn load_dyn_import(
                     let e = e.into_opaque(context)?;
                     cap.reject()
                         .call(&JsValue::undefined(), &[e], context)
-                        .expect("default `reject` function cannot throw");
+                        .js_expect("default `reject` function cannot throw")?;
                     // ii. Return unused.
                     return Ok(JsValue::undefined());
                 }
@@ -498,7 +498,7 @@ async fn load_dyn_import(
                             // ii. Perform ! Call(promiseCapability.[[Resolve]], undefined, « namespace »).
                             cap.resolve()
                                 .call(&JsValue::undefined(), &[namespace.into()], context)
-                                .expect("default `resolve` function cannot throw");
+                                .js_expect("default `resolve` function cannot throw")?;
 
                             // iii. Return unused.
                             Ok(JsValue::undefined())
@@ -575,7 +575,7 @@ impl ImportCall {
             &context.intrinsics().constructors().promise().constructor(),
             context,
         )
-        .expect("operation cannot fail for the %Promise% intrinsic");
+        .js_expect("operation cannot fail for the %Promise% intrinsic")?;
         let promise = cap.promise().clone();
 
         // 6. Let specifierString be Completion(ToString(specifier)).
